@@ -1478,6 +1478,17 @@ class Interp:
                 return a        # Box::from(x): the box is its content
         if str(n.get("callee", "")).endswith(("iter::once", "once::once", "sources::once::once")) and len(n["args"]) == 1:
             return [self.ev(n["args"][0], env)]
+        if str(n.get("callee", "")).endswith("successors::successors") and len(n["args"]) == 2:
+            cur, f_ = self.ev(n["args"][0], env), self.ev(n["args"][1], env)
+            out = []
+            while isinstance(cur, V) and cur.name == "Option::Some":
+                out.append(cur.args[0])
+                if len(out) > 500:
+                    raise Undecided("successors does not end")
+                cur = self.apply(f_, [cur.args[0]])
+            if cur == NONE:
+                return out
+            raise Undecided("successors over %r" % (cur,))
         if str(n.get("callee", "")).endswith(("iter::empty", "empty::empty")) and not n["args"]:
             return []
         if str(n.get("callee", "")).endswith(("mem::drop", "mem::forget")) and len(n["args"]) == 1:
